@@ -18,6 +18,7 @@ def main():
     r = sub.add_parser("replay")
     r.add_argument("path")
     sub.add_parser("setup")
+    sub.add_parser("validate-evaluator")
     st = sub.add_parser("selftest")
     st.add_argument("--only", default=None)
     a = ap.parse_args()
@@ -26,6 +27,14 @@ def main():
         frontend.build_facts()
         print("setup ok")
         return 0
+    if a.cmd == "validate-evaluator":
+        from vf_lib import validate
+        bad = 0
+        for T in frontend.NUMERIC:
+            r = validate.run(T)
+            print(json.dumps(r)[:600])
+            bad += r["n_disagreements"] + r["n_other_errors"]
+        return 2 if bad else 0
     if a.cmd == "selftest":
         from vf_lib import selftest
         return selftest.main(a.only)
